@@ -118,7 +118,7 @@ def _const_for(r, w, pool):
     if pool and k < 0.3:
         return r.choice(pool)
     if k < 0.36:
-        return r.choice(["00", "01"])           # expr.Zero / expr.One
+        return r.choice(["c:00", "c:01"])       # expr.Zero / expr.One
     if k < 0.48:
         n = w + r.choice([1, 2, 4, 8])
     elif k < 0.58 and w > 1:
@@ -128,14 +128,41 @@ def _const_for(r, w, pool):
     if n == 0:
         n = 1
     tok = "".join("%02x" % b for b in _rbytes(r, min(n, 255)))
-    pool.append(tok)
-    return tok
+    if r.random() < 0.15 and n <= 64:
+        # narrowed view of a wider constant (Const.WithWidth): shares bytes and spare capacity with its parent
+        extra = "".join("%02x" % r.randint(1, 255) for _ in range(r.choice([1, 2, 4, 8])))
+        tok = "cw:%s%s:%d" % (tok, extra, n)
+        pool.append(tok)
+        return tok
+    pool.append("c:" + tok)
+    return "c:" + tok
 
 
 NONCONST = ["r x1 4", "b add 4 c:01000000 c:02000000", "m mem 2 c:10", "l 1 c:01 c:02 c:03 c:04"]
 
 
 def history(r, base=None, maxops=25):
+    """one region, or (25%) two regions at least 2^63 bytes apart whose operations are interleaved"""
+    if base is not None or r.random() >= 0.25:
+        blocks, ops = _history_parts(r, base, maxops)
+    else:
+        lo = r.choice([0, 7, 1000, 2 ** 32 - 30])
+        hi = r.choice([2 ** 63 + 2 ** 62, TOP - 300, 2 ** 63 + 2000, 2 ** 63 + 2 ** 32])
+        b1, o1 = _history_parts(r, lo, max(3, maxops // 2))
+        b2, o2 = _history_parts(r, hi, max(3, maxops // 2))
+        blocks = b1 + b2
+        r.shuffle(blocks)
+        ops = []
+        while o1 or o2:
+            src = o1 if (o1 and (not o2 or r.random() < 0.5)) else o2
+            ops.append(src.pop(0))
+    hdr = "bytes %d" % len(blocks)
+    for b, bs in blocks:
+        hdr += " %d %s" % (b, _hex(bs))
+    return "%s %d %s" % (hdr, len(ops), " ".join(ops))
+
+
+def _history_parts(r, base=None, maxops=25):
     if base is None:
         base = r.choice([0, 0, 0, 7, 1000, 2 ** 32 - 30, 2 ** 63 - 20, TOP - 300, TOP - 300])
     span = 60
@@ -158,7 +185,7 @@ def history(r, base=None, maxops=25):
             if r.random() < 0.015:
                 ops.append("st %d %d %s" % (a, w, r.choice(NONCONST)))
                 continue
-            ops.append("st %d %d c:%s" % (a, w, _const_for(r, w, pool)))
+            ops.append("st %d %d %s" % (a, w, _const_for(r, w, pool)))
             present |= set(range(a, a + w))
         elif k < 0.75:
             runs = _runs(present)
@@ -203,10 +230,7 @@ def history(r, base=None, maxops=25):
             ops.append("ms %d %d" % (a, w))
         else:
             ops.append("bl")
-    hdr = "bytes %d" % len(blocks)
-    for b, bs in blocks:
-        hdr += " %d %s" % (b, _hex(bs))
-    return "%s %d %s" % (hdr, len(ops), " ".join(ops))
+    return blocks, ops
 
 
 def g_bytes(r):
@@ -229,7 +253,7 @@ def g_bytes_front(r):
     for _ in range(r.choice([1, 2, 3, 6])):
         w = r.choice([1, 2, 4, 8, 16])
         ad = base + r.randint(0, 30)
-        ops.append("st %d %d c:%s" % (ad, w, _const_for(r, w, pool)))
+        ops.append("st %d %d %s" % (ad, w, _const_for(r, w, pool)))
         ops.append(r.choice(["bl", "ld %d %d" % (ad, w), "ms %d %d" % (base, 40)]))
     ops.append("bl")
     for b, bs in blocks:
